@@ -38,3 +38,99 @@ def rate_key(blk, consts, host_key_type, cert, size, ca_type, ca_size, on_eval=N
     except Unknown as e:
         raise AnalysisError('rating block not interpretable: %s' % e)
     return list(env['key_fail_comments']), list(env['key_warn_comments'])
+
+
+def loop_carried_into_table(repo):
+    """Locals of HostKeyTest.perform_test whose value can flow from one iteration of the per-key-type loop into what is written
+    for the NEXT key type: names in the data slice of the table writes (db[...] extends / stores, set_host_key arguments) that are
+    assigned or mutated inside the loop and can be read in an iteration before being (re)assigned in that iteration.
+    Returns [(name, use statement, witness path description)]."""
+    from sa.cfg import CFG, describe_path
+    from sa.slicer import uses
+    pt = repo.func('hostkeytest', 'HostKeyTest.perform_test')
+    loops = [n for n in walk_no_nested(pt) if isinstance(n, ast.For) and isinstance(n.target, ast.Name) and n.target.id == 'host_key_type']
+    if len(loops) != 1:
+        raise AnalysisError('per-key-type loop of perform_test not found')
+    lp = loops[0]
+    params = {a.arg for a in pt.args.args}
+    in_loop = [n for st in lp.body for n in ast.walk(st)]
+    # sinks: values written into the table / the host key record
+    sink_names = set()
+    for n in in_loop:
+        if isinstance(n, ast.Call) and isinstance(n.func, ast.Attribute):
+            recv = unparse(n.func.value)
+            if (n.func.attr in ('extend', 'append', 'insert') and recv.startswith('db[')) or unparse(n.func) == 'server_kex.set_host_key':
+                for a in n.args:
+                    sink_names |= {u for u in uses(a) if '.' not in u}
+        if isinstance(n, ast.Assign) and any(unparse(t).startswith('db[') for t in n.targets):
+            sink_names |= {u for u in uses(n.value) if '.' not in u}
+    if not sink_names:
+        raise AnalysisError('no table write found inside the per-key-type loop of perform_test')
+    # transitive data dependence inside the loop (assignments and appends)
+    changed = True
+    while changed:
+        changed = False
+        for n in in_loop:
+            tgt, val = None, None
+            if isinstance(n, ast.Assign):
+                for t in n.targets:
+                    for x in ast.walk(t):
+                        if isinstance(x, ast.Name) and x.id in sink_names:
+                            tgt, val = x.id, n.value
+            elif isinstance(n, ast.Call) and isinstance(n.func, ast.Attribute) and n.func.attr in ('append', 'extend', 'add') and isinstance(n.func.value, ast.Name) and n.func.value.id in sink_names and n.args:
+                tgt, val = n.func.value.id, n.args[0]
+            if tgt is not None:
+                new = {u for u in uses(val) if '.' not in u} - sink_names
+                if new:
+                    sink_names |= new
+                    changed = True
+    # candidates: assigned or mutated inside the loop
+    touched = set()
+    for n in in_loop:
+        if isinstance(n, ast.Name) and isinstance(n.ctx, ast.Store):
+            touched.add(n.id)
+        if isinstance(n, ast.Call) and isinstance(n.func, ast.Attribute) and n.func.attr in ('append', 'extend', 'add', 'insert') and isinstance(n.func.value, ast.Name):
+            touched.add(n.func.value.id)
+    cands = sorted((sink_names & touched) - params - {lp.target.id})
+    cfg = CFG(pt, exc_edges=False)
+    head = cfg.nodes_of(lp, kinds=('test',))
+    if not head:
+        raise AnalysisError('loop head of the per-key-type loop not found in the CFG')
+    body_stmts = {id(s) for st in lp.body for s in ast.walk(st) if isinstance(s, ast.stmt)}
+    out = []
+    for v in cands:
+        def assigns(st, v=v):
+            if id(st) not in body_stmts:
+                return False
+            if isinstance(st, (ast.Assign, ast.AnnAssign, ast.AugAssign)):
+                tg = st.targets if isinstance(st, ast.Assign) else [st.target]
+                return any(isinstance(x, ast.Name) and x.id == v for t in tg for x in ast.walk(t)) and not isinstance(st, ast.AugAssign)
+            if isinstance(st, (ast.For,)):
+                return any(isinstance(x, ast.Name) and x.id == v for x in ast.walk(st.target))
+            return False
+
+        def reads(st, v=v):
+            if id(st) not in body_stmts:
+                return False
+            target = st.test if isinstance(st, (ast.If, ast.While)) else (st.iter if isinstance(st, ast.For) else st)
+            if isinstance(st, (ast.With, ast.Try)):
+                return False
+            for x in ast.walk(target):
+                if isinstance(x, ast.Name) and x.id == v and isinstance(x.ctx, ast.Load):
+                    # the value expression of an assignment to v itself that does not read v is not a read
+                    return True
+            return False
+        defs = cfg.stmts_matching(assigns)
+        usez = [n for n in cfg.stmts_matching(reads) if not (n in defs and not _reads_own(n.stmt, v))]
+        starts = set()
+        for h in head:
+            starts |= set(h.succ)
+        pth = cfg.find_path(list(starts), usez, avoid=list(defs) + list(head))
+        if pth is not None:
+            out.append((v, pth[-1].stmt, describe_path(pth)))
+    return pt, cands, out
+
+
+def _reads_own(st, v):
+    val = getattr(st, 'value', None)
+    return val is not None and any(isinstance(x, ast.Name) and x.id == v for x in ast.walk(val))
